@@ -172,3 +172,33 @@ Proof.
            px_objs_ok 0 1 px_f3 0 _ eq_refl).
   split; [cbn; lia|]. intros p i b H. px_inv H. exists 13%N. split; [reflexivity | intros _; reflexivity].
 Qed.
+
+(* ---- collision freedom at the recorded hashes: the hash of the witnesses is injective --------------------------------------- *)
+Definition px_rb (p j : nat) : bid := match p, j with 0, 1 => 13%N | 1, 0 => 12%N | _, _ => 0%N end.
+Lemma px_collision_free_blk : collision_free_blk w_hashf w_padz 1024 px_c 2 px_rb.
+Proof.
+  constructor.
+  - intros p j f i b _ H Hnc. px_inv H; try (exfalso; apply Hnc; reflexivity); reflexivity.
+  - intros p j f i b x _ H Hnc Hh. px_inv H; try (exfalso; apply Hnc; reflexivity);
+      unfold hash_ok, w_hashf in Hh; cbn in Hh; apply N.eqb_eq in Hh; cbn; lia.
+  - intros p j f i b _ H Hnc. px_inv H; try (exfalso; apply Hnc; reflexivity); reflexivity.
+Qed.
+
+(* the full statement on the array with the pending change, file 1 and file 2 lost: every hypothesis holds *)
+Example px_fix_never_wrong :
+  let out := check_run w_hashf w_padz w_truncf 1024 2 false w_newino 999 x_fix px_c px_par px_fs2 [] (seq 0 2) in
+  (out_fail out = true <-> r_unrec (out_st out) <> 0)
+  /\ forall p j f i b, slot_of px_c p j = SFile f i b ->
+       (fl_damaged (get_fl (r_flags (out_st out)) (j, cf_name f)) = true
+        /\ fs_find (r_fs (out_st out)) j (cf_name f) = None /\ In (K_ST_UNREC, [N.of_nat j; cf_name f]) (r_tags (out_st out))
+        /\ r_unrec (out_st out) <> 0 /\ out_fail out = true)
+       \/ (fl_damaged (get_fl (r_flags (out_st out)) (j, cf_name f)) = false
+           /\ (fb_state b <> SChg -> fblk (r_fs (out_st out)) j (cf_name f) i = px_rb p j)
+           /\ (fb_state b = SChg ->
+                 fblk (r_fs (out_st out)) j (cf_name f) i = fblk px_fs2 j (cf_name f) i
+                 \/ exists x, fblk (r_fs (out_st out)) j (cf_name f) i = wbv w_padz w_truncf 1024 f i x
+                              /\ forall l v, nth p (nth l px_par []) PNone = PEnc v -> x <> vnth v j)).
+Proof.
+  exact (run_fix_never_wrong w_hashf w_padz w_truncf 1024 2 w_newino 999 x_fix px_c 2 px_fs2 px_par [] px_rb x_plain_fix eq_refl px_geom eq_refl eq_refl (le_n 2)
+           px_objs_ok px_past_hash_inv_all px_collision_free_blk).
+Qed.
